@@ -143,14 +143,6 @@ func (v *valuesVisitor) valueSatisfiesOperationListType(value ast.Value, operati
 		return v.valueSatisfiesOperationType(value, listItemType)
 	}
 
-	if v.operation.Types[listItemType].TypeKind == ast.TypeKindNonNull {
-		if len(v.operation.ListValues[value.Ref].Refs) == 0 {
-			// [] empty list is a valid input for [item!] lists
-			return true
-		}
-		listItemType = v.operation.Types[listItemType].OfType
-	}
-
 	valid := true
 
 	for _, i := range v.operation.ListValues[value.Ref].Refs {
@@ -238,14 +230,6 @@ func (v *valuesVisitor) valueSatisfiesListType(value ast.Value, definitionTypeRe
 
 	if value.Kind != ast.ValueKindList {
 		return v.valueSatisfiesInputValueDefinitionType(value, listItemType)
-	}
-
-	if v.definition.Types[listItemType].TypeKind == ast.TypeKindNonNull {
-		if len(v.operation.ListValues[value.Ref].Refs) == 0 {
-			// [] empty list is a valid input for [item!] lists
-			return true
-		}
-		listItemType = v.definition.Types[listItemType].OfType
 	}
 
 	valid := true
